@@ -32,7 +32,7 @@ import traceback
 
 from vf.core import Check, REPO, HarnessError, lean_str
 
-MODULES = ["Model.Cursor", "Model.ScanProgress", "Model.FindParser", "Proofs.Cursor", "Proofs.ScanProgress", "Proofs.FindParser", "Generated.C05", "Properties.C05"]
+MODULES = ["Model.Cursor", "Model.ScanProgress", "Model.FindParser", "Model.FormatScan", "Proofs.Cursor", "Proofs.ScanProgress", "Proofs.FindParser", "Proofs.FormatScan", "Generated.C05", "Properties.C05"]
 _P = "SqlglotModel.Properties.C05."
 THEOREMS = [_P + n for n in [
     "comb_restores", "comb_restores_needs_guard",
@@ -57,6 +57,7 @@ THEOREMS = [_P + n for n in [
     "option_loop_terminates", "option_loop_relying_on_raise_diverges", "option_loop_relying_on_raise_immediate",
     "parser_loops_progress_or_break",
     "generator_unguarded_optional_accesses_known",
+    "Fmt.format_walk_guarded_safe", "Fmt.format_walk_find_index_error", "Fmt.builder_string_lookaheads_guarded",
 ]]
 
 # step budgets for the search oracle, calibrated on the clean tree with ≥ 10x margin (cov["calibration"] in the evidence
@@ -488,6 +489,77 @@ def generator_access_facts(chk: Check):
     return sorted(set(rows))
 
 
+def string_index_facts(chk: Check):
+    """index-arithmetic lookups into strings / lists inside the function builders and their helpers (parsers/*.py,
+    dialects/dialect.py, parser.py module level, time.py, helper.py): `s[i + 1]`, `s[i - 1]`, and `s[i]` where `i` is an index
+    variable the function advances itself (`i += 1`, `i = s.find(…)`), each with the bounds guard (a test mentioning len / length /
+    size / the container) that dominates it, or "".  `self._tokens[...]` is covered by forwardLookaheadSites."""
+    import glob
+    files = sorted(glob.glob(os.path.join(REPO, "sqlglot", "parsers", "*.py"))) + [
+        os.path.join(REPO, "sqlglot", f) for f in ("dialects/dialect.py", "parser.py", "time.py", "helper.py")]
+    rows = []
+    for path in files:
+        mod = os.path.basename(path)[:-3]
+        try:
+            tree = ast.parse(open(path, encoding="utf-8").read())
+        except Exception:  # noqa
+            chk.broken.append({"kind": "translator", "what": f"C05 translator: cannot parse {path}"})
+            continue
+        fns = [(f"{mod}.{fn.name}", fn) for fn in ast.walk(tree) if isinstance(fn, ast.FunctionDef)]
+        for qual, fn in fns:
+            idx_vars = set()
+            for n in ast.walk(fn):
+                if isinstance(n, ast.AugAssign) and isinstance(n.target, ast.Name):
+                    idx_vars.add(n.target.id)
+                if isinstance(n, ast.Assign) and len(n.targets) == 1 and isinstance(n.targets[0], ast.Name) and isinstance(n.value, ast.Call) \
+                        and isinstance(n.value.func, ast.Attribute) and n.value.func.attr in ("find", "index", "rfind"):
+                    idx_vars.add(n.targets[0].id)
+
+            def visit(node, guards):
+                if isinstance(node, (ast.FunctionDef, ast.Lambda)) and node is not fn:
+                    return
+                if isinstance(node, (ast.If, ast.While)):
+                    visit(node.test, guards)
+                    for st in node.body:
+                        visit(st, guards + [_src(node.test)])
+                    for st in node.orelse:
+                        visit(st, guards + ["not (" + _src(node.test) + ")"])
+                    return
+                if isinstance(node, ast.IfExp):
+                    visit(node.test, guards)
+                    visit(node.body, guards + [_src(node.test)])
+                    visit(node.orelse, guards + ["not (" + _src(node.test) + ")"])
+                    return
+                if isinstance(node, ast.BoolOp) and isinstance(node.op, ast.And):
+                    acc = list(guards)
+                    for v in node.values:
+                        visit(v, acc)
+                        acc = acc + [_src(v)]
+                    return
+                if isinstance(node, ast.For):
+                    visit(node.iter, guards)
+                    for st in node.body:
+                        visit(st, guards + ["for " + _src(node.target) + " in " + _src(node.iter)])
+                    for st in node.orelse:
+                        visit(st, guards)
+                    return
+                if isinstance(node, ast.Subscript) and isinstance(node.ctx, ast.Load) and not isinstance(node.slice, ast.Slice) \
+                        and not _is_self_attr(node.value, "_tokens") and isinstance(node.value, ast.Name):
+                    sl = node.slice
+                    arith = isinstance(sl, ast.BinOp) and isinstance(sl.op, (ast.Add, ast.Sub)) and any(isinstance(x, ast.Name) for x in (sl.left, sl.right))
+                    idxv = isinstance(sl, ast.Name) and sl.id in idx_vars
+                    if arith or idxv:
+                        cont = node.value.id
+                        bounds = [g for g in guards if any(w in g for w in ("len(", "length", "size", cont + ")"))]
+                        rows.append((qual, " ".join(_src(node).split()), bounds[-1] if bounds else ""))
+                for ch in ast.iter_child_nodes(node):
+                    visit(ch, guards)
+
+            for st in fn.body:
+                visit(st, [])
+    return sorted(set(rows))
+
+
 def find_parser_facts(chk: Check):
     """the two key functions of Parser._find_parser (trie key of a token text, dict key of the consumed texts) and the key
     function every SHOW_TRIE / SET_TRIE is built with, by ast"""
@@ -622,6 +694,9 @@ def translate(chk: Check) -> str:
         "def generatorUnguardedRequired : List (String × String) := [\n" + ",\n".join(
             f"  ({lean_str(f)}, {lean_str(x)})" for f, x, k in generator_access_facts(chk) if k == "required") + "]\n",
         f"def generatorUnguardedUnknownClass : Nat := {sum(1 for _, _, k in generator_access_facts(chk) if k == 'unknown-class')}\n",
+        "-- index-arithmetic lookups into strings / argument lists in builders and helpers: (function, access, dominating bounds guard)\n",
+        "def stringIndexSites : List (String × String × String) := [\n" + ",\n".join(
+            f"  ({lean_str(f)}, {lean_str(x)}, {lean_str(g)})" for f, x, g in string_index_facts(chk)) + "]\n",
         "-- Parser glue\n",
         _lean_strs("retreatBody", pf["retreat"]),
         _lean_strs("tryParseFinally", pf["try_finally"]),
@@ -1358,9 +1433,11 @@ def prefix_sweep(dialects, quick=False):
             for pi, e in enumerate(ends):
                 pre = stmt[:e]
                 ds = sorted({"", other}) if other else [""]
+                if quick and own:
+                    ds = [own]        # quick tier: dialect statements in their own dialect only (base is covered by STATIC_CORPUS)
                 for di, d in enumerate(ds):
                     yield pre, d
-                    if not quick or (pi + di) % 2 == 0 or len(ds) == 1:
+                    if not quick or (d == "" and pi % 2 == 0) or len(ds) == 1:
                         yield pre + "; SELECT 2", d
 
 
@@ -1506,8 +1583,8 @@ def tokenizer_stream(dialect, rng, quick=True):
     extra = [k for k in t["keywords"] if k not in set(words)]
     words += extra if not quick else rng.sample(extra, min(25, len(extra)))
     for k in words:
-        for v in case_variants(k):
-            for cont in (TOK_CONTINUATIONS[:10] if quick else TOK_CONTINUATIONS):
+        for v in (case_variants(k)[:4] if quick else case_variants(k)):
+            for cont in (TOK_CONTINUATIONS[:7] if quick else TOK_CONTINUATIONS):
                 body = v + cont.replace("{K}", v)
                 yield body
                 yield "SELECT " + body
@@ -1629,6 +1706,7 @@ def keyword_sweep(dialect, words, n_ctx=None, n_cont=None):
 
 
 TRIE_TABLES = [("SHOW_PARSERS", "SHOW"), ("SET_PARSERS", "SET")]
+_SEEN_TRIE_TABLES: set = set()
 
 
 def trie_key_sweep(dialect, quick=True):
@@ -1644,6 +1722,10 @@ def trie_key_sweep(dialect, quick=True):
         quotes = quotes[:1] + quotes[-1:]
     for table, head in TRIE_TABLES:
         dct = getattr(pc, table, None) or {}
+        sig = (table, tuple(sorted(k for k in dct if isinstance(k, str))), tuple(quotes), type(d).parser_class._find_parser)
+        if quick and sig in _SEEN_TRIE_TABLES:
+            continue      # the same table with the same quote characters was already swept through another dialect
+        _SEEN_TRIE_TABLES.add(sig)
         for key in sorted(k for k in dct if isinstance(k, str) and k):
             words = key.split(" ")
             variants = [key, key + " ", " " + key, "\t" + key, key + "\n", key.lower() + " ", "  ".join(words), "\t".join(words)]
@@ -1665,6 +1747,68 @@ def trie_key_sweep(dialect, quick=True):
                     yield f"{head} {qa}{words[0]} {qb} " + " ".join(words[1:])
                     yield f"{head} {words[0]} {qa} " + " ".join(words[1:]) + qb
                     yield f"{head} " + " ".join(words[:-1])            # cut right after a PREFIX answer: end of chunk
+
+
+BUILDER_LITERALS = ["''", "'%'", "'%Y-%m-%'", "'%d days, 100%'", "'%%'", "'a\\\\'", "'é%'", "'" + "%Y" * 40 + "'", "'%-'", "'{'"]
+_LITERAL_PATTERNS = ("format_time", ".name", "is_string", "to_py", "_has_time_specifier", ".this[", ".text", "int(", "build_formatted_time")
+_SEEN_BUILDERS: set = set()
+
+
+def _inspects_literal(fn, depth=0) -> bool:
+    import inspect
+    try:
+        src_ = inspect.getsource(fn)
+    except Exception:  # noqa
+        return False
+    if any(p_ in src_ for p_ in _LITERAL_PATTERNS):
+        return True
+    if depth >= 1:
+        return False
+    g = getattr(fn, "__globals__", {})
+    try:
+        names = {n.id for n in ast.walk(ast.parse(src_.strip() if not src_.startswith(" ") else "if 1:\n" + src_)) if isinstance(n, ast.Name)}
+    except Exception:  # noqa
+        return False
+    for nm in names:
+        h = g.get(nm)
+        if callable(h) and getattr(h, "__module__", "").startswith("sqlglot") and hasattr(h, "__code__") and _inspects_literal(h, depth + 1):
+            return True
+    # closures (build_formatted_time(...) returns an inner builder)
+    for cell in (getattr(fn, "__closure__", None) or ()):
+        try:
+            h = cell.cell_contents
+        except ValueError:
+            continue
+        if callable(h) and hasattr(h, "__code__") and _inspects_literal(h, depth + 1):
+            return True
+    return False
+
+
+def builder_literal_sweep(dialect, quick=True):
+    """function-call templates for every FUNCTIONS entry whose builder looks inside a string-literal argument (found by
+    inspecting the live builder's source: format_time / .name / is_string / to_py / string indexing, one call level deep) and
+    for every FUNCTION_PARSERS entry, with adversarial literals (empty, single / trailing / doubled `%`, trailing backslash,
+    non-ASCII, very long) in each argument position.  A builder object shared by several dialects is swept once."""
+    *_, Dialect, _ = sg()
+    pc = Dialect.get_or_raise(dialect or None).parser_class
+    origs = {(id(dd), kk): fn for dd, kk, fn in MON.wrapped_tables}
+    for table in ("FUNCTIONS", "FUNCTION_PARSERS"):
+        dct = getattr(pc, table, None) or {}
+        for name in sorted(k for k in dct if isinstance(k, str) and k.replace("_", "").isalnum()):
+            fn = origs.get((id(dct), name), dct[name])
+            if id(fn) in _SEEN_BUILDERS:
+                continue
+            if table == "FUNCTIONS" and not _inspects_literal(fn):
+                continue
+            _SEEN_BUILDERS.add(id(fn))
+            lits = BUILDER_LITERALS if not quick else BUILDER_LITERALS[:6]
+            for i, lit in enumerate(lits):
+                yield f"SELECT {name}({lit})"
+                yield f"SELECT {name}(x, {lit})"
+                if not quick:
+                    yield f"SELECT {name}({lit}, x)"
+                if "%" in lit and (not quick or i < 3):
+                    yield f"SELECT {name}(x, y, {lit})"
 
 
 def element_words(dialect) -> list:
@@ -2343,6 +2487,36 @@ def correspond_find_parser(chk: Check) -> None:
             chk.correspondence_broken("Parser._find_parser vs the two-step lookup model", {"keys": c[0], "token_texts": c[1], "model": g, "impl": e})
 
 
+def correspond_format_scan(chk: Check) -> None:
+    """sqlglot.parsers.mysql._has_time_specifier on the real code vs the guarded `%`-walk model, on adversarial format strings"""
+    import random
+    try:
+        from sqlglot.parsers import mysql as mysql_parsers
+        real, spec = mysql_parsers._has_time_specifier, "".join(sorted(mysql_parsers.TIME_SPECIFIERS))
+    except Exception as e:  # noqa
+        chk.broken.append({"kind": "translator", "what": f"C05: sqlglot.parsers.mysql._has_time_specifier / TIME_SPECIFIERS not found ({e})"})
+        return
+    rng = random.Random(f"C05fmt:{chk.seed}")
+    fixed = ["", "%", "%%", "%Y-%m-%", "%d days, 100%", "%H", "a%", "%%%", "%Y %H:%i", "100%%", "é%", "%é", "%" * 7, "%Y" * 50 + "%"]
+    strings = fixed + ["".join(rng.choice("%%%YmdHis- a") for _ in range(rng.randint(0, 9))) for _ in range(chk.pick(500, 5000))]
+    lines, expect = [], []
+    for st in strings:
+        try:
+            out = "true" if real(st) else "false"
+        except IndexError:
+            out = "indexerror"
+        except Exception as e:  # noqa
+            out = "other " + type(e).__name__
+        lines.append(json.dumps({"op": "fmt", "s": st, "spec": spec}))
+        expect.append(out)
+        chk.case(("fmt", st), nontrivial="%" in st)
+    got = chk.driver("C05", lines)
+    chk.corr_cases += len(lines)
+    for g, e, st in zip(got, expect, strings):
+        if g != e:
+            chk.correspondence_broken("mysql._has_time_specifier vs the guarded %-walk model", {"format": st, "model": g, "impl": e})
+
+
 # =========================================================================================== correspondence (B), (C)
 def token_type_ids():
     _, _, _, tokens, *_ = sg()
@@ -2659,7 +2833,7 @@ def search(chk: Check, hints: list, budget_s: float) -> None:
         words = tkw["loop"] if not d else tkw["specific"]
         if not chk.quick:
             words = tkw["all"] if not d else sorted(set(tkw["specific"]) | set(rng.sample(tkw["all"], min(25, len(tkw["all"])))))
-        shape = (None, None) if not chk.quick else ((5, 6) if not d else (None, 7))
+        shape = (None, None) if not chk.quick else ((5, 6) if not d else (8, 6))
         for i, sql in enumerate(keyword_sweep(d, words, *shape)):
             if len(chk.violations) >= MAXV or time.time() - t0 > budget_s:
                 break
@@ -2676,8 +2850,18 @@ def search(chk: Check, hints: list, budget_s: float) -> None:
                     break
                 one(form.replace("{K}", w), d, LEVELS[i % 4], None, "keyword-sweep")
                 n_sweep += 1
+    # function builders that look inside a string-literal argument, with adversarial literals
+    _SEEN_BUILDERS.clear()
+    n_bl = 0
+    for d in dialects:
+        for i, sql in enumerate(builder_literal_sweep(d, chk.quick)):
+            if len(chk.violations) >= MAXV or time.time() - t0 > budget_s:
+                break
+            one(sql, d, LEVELS[i % 4], None, "builder-literal")
+            n_bl += 1
+    chk.cov["builder_literal_inputs"] = n_bl
     # trie-driven lookups (SHOW / SET sub-parsers): every key as a quoted token with whitespace / case variants
-    seen_tk = set()
+    _SEEN_TRIE_TABLES.clear()
     for d in dialects:
         for i, sql in enumerate(trie_key_sweep(d, chk.quick)):
             if len(chk.violations) >= MAXV or time.time() - t0 > budget_s:
@@ -2734,6 +2918,7 @@ def run(chk: Check) -> None:
         try:
             correspond_programs(chk)
             correspond_find_parser(chk)
+            correspond_format_scan(chk)
             chk.cov["t_programs_s"] = round(chk.elapsed(), 1)
             if os.environ.get("C05_DEBUG_DUMP"):
                 print("after A", chk.elapsed(), flush=True)
